@@ -342,7 +342,9 @@ type cOp struct {
 	Op     int   `json:"op"`
 	X      int64 `json:"x"`
 	Anyway bool  `json:"anyway,omitempty"`
-	Out    cOut  `json:"out"`
+	// pause between the attempts of an ...Anyway add in microseconds (0 = the default, 20 us)
+	SleepUs int  `json:"sleepus,omitempty"`
+	Out     cOut `json:"out"`
 }
 
 type cLaunch struct {
